@@ -1,6 +1,653 @@
-//! C13 — not built yet.
+//! C13 — the chain tracker follows only validated blocks and rejects atomically.
+//!
+//! A real `ChainTracker<ChainMonitor>` (regtest or testnet rules) with one real `ChainMonitor`
+//! listener, real mined headers and blocks, real `TxoProof`s whose attestations are signed by 0–3
+//! oracle keys (trusted sets of 0–3 keys, majority edges), compact and streamed delivery.
+//! Invalid requests: broken link, missing PoW, changed bits off the retarget boundary, transitions
+//! at the boundary (x1, /2, /4, /8, over the chain maximum), proofs for another height / filter
+//! header / block, too few trusted attestations, `ProofType::Block`, wrong prev-header arguments,
+//! removal beyond the header window, streamed hash mismatch.
+//! Every op line = abstract tokens for the Lean model `tracker` + `|` + the raw objects (hex).
+//! Monitors: (a) snapshot of headers/tip/height/monitor State/ListenSlot around every refusal,
+//! (b) an accepted block satisfies link/PoW/majority by independent evaluation, (c) a request the
+//! generator built as correct must succeed, also after refusals, (d) a panic in `block_chunk` after a
+//! refused streamed request (stale monitor decode state, F4b).
+use super::c14::world::{coinbase, listener_digest_ids, mk_tx, panic_msg};
 use crate::common::*;
+use lightning_signer::bitcoin::block::{Header as BlockHeader, Version as BlockVersion};
+use lightning_signer::bitcoin::consensus::{deserialize, serialize};
+use lightning_signer::bitcoin::hash_types::{FilterHeader, TxMerkleNode};
+use lightning_signer::bitcoin::hashes::Hash;
+use lightning_signer::bitcoin::secp256k1::{Keypair, PublicKey, Secp256k1, SecretKey};
+use lightning_signer::bitcoin::{merkle_tree, Block, BlockHash, CompactTarget, Network, OutPoint, Transaction, Txid};
+use lightning_signer::chain::tracker::{ChainTracker, Error as TErr, Headers};
+use lightning_signer::channel::ChannelId;
+use lightning_signer::monitor::{ChainMonitor, ChainMonitorBase};
+use lightning_signer::policy::simple_validator::SimpleValidatorFactory;
+use lightning_signer::txoo::proof::{ProofType, TxoProof};
+use lightning_signer::txoo::util::sign_attestation;
+use lightning_signer::txoo::{Attestation, SignedAttestation};
+use lightning_signer::util::test_utils::*;
+use lightning_signer::OrderedSet;
+use std::collections::{BTreeMap, HashMap, VecDeque};
+#[allow(unused_imports)]
+use std::iter::FromIterator;
+use std::panic::{catch_unwind, AssertUnwindSafe};
+use std::sync::Arc;
+
+const F: u64 = 1;
+const D: u64 = 2;
+const X0: u64 = 20;
+const REGTEST_BITS: u32 = 0x207fffff;
+const DUMMY_KEY: u64 = 9;
+
+fn oracle_secret(k: u64) -> [u8; 32] {
+    if k == DUMMY_KEY { [2u8; 32] } else { [10 + k as u8; 32] }
+}
+fn oracle_key(k: u64) -> (Keypair, PublicKey) {
+    let secp = Secp256k1::new();
+    let sk = SecretKey::from_slice(&oracle_secret(k)).unwrap();
+    (Keypair::from_secret_key(&secp, &sk), PublicKey::from_secret_key(&secp, &sk))
+}
+
+fn mine(prev: BlockHash, merkle_root: TxMerkleNode, bits: u32, time: u32, want_pow: bool) -> BlockHeader {
+    let mut nonce = 0;
+    loop {
+        let h = BlockHeader {
+            version: BlockVersion::from_consensus(0),
+            prev_blockhash: prev,
+            merkle_root,
+            time,
+            bits: CompactTarget::from_consensus(bits),
+            nonce,
+        };
+        if h.validate_pow(h.target()).is_ok() == want_pow {
+            return h;
+        }
+        nonce += 1;
+        if nonce > 5_000_000 {
+            panic!("mining gave up");
+        }
+    }
+}
+
+fn mk_block(prev: BlockHash, txs: Vec<Transaction>, bits: u32, time: u32, want_pow: bool) -> Block {
+    let txids: Vec<Txid> = txs.iter().map(|t| t.compute_txid()).collect();
+    let root = merkle_tree::calculate_root(txids.into_iter()).unwrap();
+    let header = mine(prev, TxMerkleNode::from_raw_hash(root.into()), bits, time, want_pow);
+    Block { header, txdata: txs }
+}
+
+struct W13 {
+    tracker: ChainTracker<ChainMonitor>,
+    fo: OutPoint,
+    txs: BTreeMap<u64, Transaction>,
+    ids: HashMap<Txid, u64>,
+    cb: u32,
+}
+
+impl W13 {
+    /// content-derived ids (first four bytes; the all-zero value is 0)
+    fn hid(&mut self, h: &BlockHash, _learn: bool) -> u64 {
+        let b = h.to_byte_array();
+        if b.iter().all(|x| *x == 0) { 0 } else { 1 + u32::from_le_bytes([b[0], b[1], b[2], b[3]]) as u64 }
+    }
+    fn fid(&mut self, f: &FilterHeader) -> u64 {
+        let b = f.to_byte_array();
+        if b.iter().all(|x| *x == 0) { 0 } else { 1 + u32::from_le_bytes([b[0], b[1], b[2], b[3]]) as u64 }
+    }
+    fn hdr_tok(&mut self, h: &BlockHeader, learn: bool) -> String {
+        let prev = self.hid(&h.prev_blockhash, false);
+        let id = self.hid(&h.block_hash(), learn);
+        format!("{}:{}:{}:{}:{}", id, prev, h.bits.to_consensus(), h.time, if h.validate_pow(h.target()).is_ok() { 1 } else { 0 })
+    }
+    fn headers_tok(&mut self, h: &Headers, learn: bool) -> String {
+        let a = self.hdr_tok(&h.0, learn);
+        let f = self.fid(&h.1);
+        format!("V{}:{}", a, f)
+    }
+    fn tx_tok(&self, t: &Transaction) -> String {
+        let id = self.ids.get(&t.compute_txid()).cloned().unwrap_or(999);
+        let ins: Vec<String> = t.input.iter().map(|i| format!("{}.{}", self.ids.get(&i.previous_output.txid).cloned().unwrap_or(999), i.previous_output.vout)).collect();
+        format!("T{}:{}:{}:p", id, if ins.is_empty() { "-".into() } else { ins.join(";") }, t.output.len())
+    }
+
+    /// `init <net> <height> <bits> <nwin> <zero-filter-tip> <deep> <trusted>`
+    fn new(net: &str, height: u32, bits: u32, nwin: usize, zero_tip: bool, deep: bool, trusted: &[u64]) -> (W13, Vec<String>) {
+        let network = if net == "t" { Network::Testnet } else { Network::Regtest };
+        // a chain of nwin+1 mined headers ending in the tip
+        let mut prev = BlockHash::all_zeros();
+        let mut chain: Vec<Headers> = Vec::new();
+        for i in 0..=nwin {
+            let blk = mk_block(prev, vec![coinbase(900_000 + i as u32)], bits, 1000 + i as u32, true);
+            let fh = if zero_tip && i == nwin { FilterHeader::all_zeros() } else { FilterHeader::from_byte_array([(i % 250) as u8 + 1; 32]) };
+            prev = blk.block_hash();
+            chain.push(Headers(blk.header, fh));
+        }
+        let tip = chain.pop().unwrap();
+        let headers: VecDeque<Headers> = chain.iter().rev().cloned().collect();
+        let (_, node_id) = oracle_key(7);
+        let tkeys: Vec<PublicKey> = trusted.iter().map(|k| oracle_key(*k).1).collect();
+        let mut tracker = ChainTracker::restore(
+            headers.clone(),
+            tip.clone(),
+            height,
+            network,
+            std::collections::BTreeMap::new(),
+            node_id,
+            Arc::new(SimpleValidatorFactory::new()),
+            tkeys,
+        );
+        tracker.set_allow_deep_reorgs(deep);
+        let funding = mk_tx(vec![make_outpoint(1), make_outpoint(2)], 1, 11);
+        let fo = OutPoint::new(funding.compute_txid(), 0);
+        let base = ChainMonitorBase::new(fo, height, &ChannelId::new(&[33u8; 32]));
+        base.add_funding_outpoint(&fo);
+        base.add_funding_inputs(&funding);
+        let monitor = base.as_monitor(Box::new(DummyCommitmentPointProvider {}));
+        tracker.add_listener(monitor, OrderedSet::from_iter(vec![fo.txid]));
+        tracker.add_listener_watches(&fo, funding.input.iter().map(|i| i.previous_output).collect());
+        let mut txs = BTreeMap::new();
+        txs.insert(F, funding);
+        txs.insert(D, mk_tx(vec![make_outpoint(2)], 1, 12));
+        for i in 0..6u64 {
+            txs.insert(X0 + i, mk_tx(vec![make_outpoint(50 + i as u32)], 1, 100 + i as u32));
+        }
+        let mut ids = HashMap::new();
+        ids.insert(Txid::all_zeros(), 0u64);
+        for (k, t) in &txs {
+            ids.insert(t.compute_txid(), *k);
+        }
+        let mut w = W13 { tracker, fo, txs, ids, cb: 0 };
+        // model set-up lines
+        let mut lines = Vec::new();
+        let tip_tok = w.headers_tok(&tip, true);
+        let tr: Vec<String> = trusted.iter().map(|k| k.to_string()).collect();
+        lines.push(format!("init {} {} {} {} {}", net, height, tip_tok, if deep { 1 } else { 0 }, if tr.is_empty() { "-".into() } else { tr.join(",") }));
+        let mut wl = String::from("window");
+        for h in headers.iter() {
+            wl.push(' ');
+            wl.push_str(&w.headers_tok(h, true));
+        }
+        lines.push(wl);
+        lines.push(format!("listener 1 {} {} 0 0.1;0.2", height, F));
+        (w, lines)
+    }
+
+    fn digest(&mut self) -> String {
+        let t = &self.tracker;
+        let hs: Vec<(BlockHash, FilterHeader)> = t.headers().iter().map(|h| (h.0.block_hash(), h.1)).collect();
+        let tip = t.tip().clone();
+        let height = t.height();
+        let l = listener_digest_ids(t, &self.fo, &self.ids);
+        let hstr: Vec<String> = hs.iter().map(|(h, f)| format!("{}/{}", self.hid(h, false), self.fid(f))).collect();
+        let tipid = self.hid(&tip.0.block_hash(), false);
+        let tf = self.fid(&tip.1);
+        format!("h={} tip={}/{} n={} hdrs={} L 1:{}", height, tipid, tf, hs.len(), if hstr.is_empty() { "-".into() } else { hstr.join(",") }, l)
+    }
+
+    /// attest (block hash, height, filter header) with the given oracle keys
+    fn attest(keys: &[u64], hash: BlockHash, height: u32, fh: FilterHeader) -> Vec<(PublicKey, SignedAttestation)> {
+        let secp = Secp256k1::new();
+        keys.iter()
+            .map(|k| {
+                let (kp, pk) = oracle_key(*k);
+                (pk, sign_attestation(Attestation { block_hash: hash, block_height: height, filter_header: fh, time: 0 }, &kp, &secp))
+            })
+            .collect()
+    }
+
+    fn proof_tok(&mut self, p: &TxoProof, verify_ok: bool) -> (String, Vec<String>) {
+        let ty = match &p.proof { ProofType::Filter(..) => "f", ProofType::Block(_) => "b", ProofType::ExternalBlock() => "x" };
+        let att: Vec<String> = p
+            .attestations
+            .iter()
+            .map(|(pk, _)| (1..=9u64).find(|k| oracle_key(*k).1 == *pk).unwrap_or(99).to_string())
+            .collect();
+        let (fh, cons) = if p.attestations.is_empty() {
+            (0, 1)
+        } else {
+            let f0 = p.attestations[0].1.attestation.filter_header;
+            (self.fid(&f0), if p.attestations.iter().all(|a| a.1.attestation.filter_header == f0) { 1 } else { 0 })
+        };
+        let txs: Vec<String> = match &p.proof {
+            ProofType::Filter(_, spv) => spv.txs.iter().filter(|t| !t.input.is_empty()).map(|t| self.tx_tok(t)).collect(),
+            _ => vec![],
+        };
+        (format!("P{}:{}:{}:{}:{}", ty, if verify_ok { 1 } else { 0 }, if att.is_empty() { "-".into() } else { att.join(",") }, fh, cons), txs)
+    }
+}
+
+fn hexs<T: lightning_signer::bitcoin::consensus::Encodable>(x: &T) -> String {
+    hex::encode(serialize(x))
+}
+
+fn err_str(e: &TErr) -> &'static str {
+    match e {
+        TErr::InvalidChain => "err:invalid-chain",
+        TErr::OrphanBlock(_) => "err:orphan",
+        TErr::InvalidBlock => "err:invalid-block",
+        TErr::BlockDecodeError => "err:decode-error",
+        TErr::ReorgTooDeep => "err:reorg-too-deep",
+        TErr::InvalidProof => "err:invalid-proof",
+    }
+}
+
+/// raw request as carried after the `|`
+enum Raw {
+    Add { valid: bool, header: BlockHeader, proof: TxoProof, streamed_txs: Vec<Transaction> },
+    Remove { valid: bool, proof: TxoProof, prev: Headers, streamed_txs: Vec<Transaction> },
+    Chunk { hash: BlockHash, block: Block },
+    Trusted(Vec<u64>),
+}
+
+impl W13 {
+    /// abstract (model) part of the line for a raw request, computed against the current tracker state
+    fn abstract_line(&mut self, raw: &Raw) -> String {
+        let secp = Secp256k1::new();
+        match raw {
+            Raw::Add { header, proof, streamed_txs, .. } => {
+                let ext = proof.proof.is_external();
+                let hash = header.block_hash();
+                let watches = self.tracker.get_all_forward_watches().1;
+                let tipf = self.tracker.tip().1;
+                let v = if proof.attestations.is_empty() && false { false } else {
+                    proof.verify(self.tracker.height() + 1, header, if ext { Some(&hash) } else { None }, &tipf, &watches, &secp).is_ok()
+                };
+                let ht = self.hdr_tok(header, true);
+                let (pt, mut txs) = self.proof_tok(proof, v);
+                if ext { txs = streamed_txs.iter().filter(|t| !t.input.is_empty()).map(|t| self.tx_tok(t)).collect(); }
+                format!("add H{} {} {}", ht, pt, txs.join(" ")).trim_end().to_string()
+            }
+            Raw::Remove { proof, prev, streamed_txs, .. } => {
+                let ext = proof.proof.is_external();
+                let prev_hash = prev.0.block_hash();
+                let watches = self.tracker.get_all_reverse_watches().1;
+                let tip = self.tracker.tip().0;
+                let v = proof.verify(self.tracker.height(), &tip, if ext { Some(&prev_hash) } else { None }, &prev.1, &watches, &secp).is_ok();
+                let (pt, mut txs) = self.proof_tok(proof, v);
+                if ext { txs = streamed_txs.iter().filter(|t| !t.input.is_empty()).map(|t| self.tx_tok(t)).collect(); }
+                let vt = self.headers_tok(prev, false);
+                format!("remove {} {} {}", pt, vt, txs.join(" ")).trim_end().to_string()
+            }
+            Raw::Chunk { hash, block } => {
+                let d = self.hid(hash, true);
+                let a = self.hid(&block.block_hash(), true);
+                format!("chunk {} {}", d, a)
+            }
+            Raw::Trusted(ks) => {
+                let tr: Vec<String> = ks.iter().map(|k| k.to_string()).collect();
+                format!("trusted {}", if tr.is_empty() { "-".into() } else { tr.join(",") })
+            }
+        }
+    }
+
+    fn raw_str(raw: &Raw) -> String {
+        match raw {
+            Raw::Add { valid, header, proof, streamed_txs } => {
+                let t: Vec<String> = streamed_txs.iter().map(|t| hexs(t)).collect();
+                format!("A {} {} {} {}", if *valid { 1 } else { 0 }, hexs(header), hexs(proof), if t.is_empty() { "-".into() } else { t.join(",") })
+            }
+            Raw::Remove { valid, proof, prev, streamed_txs } => {
+                let t: Vec<String> = streamed_txs.iter().map(|t| hexs(t)).collect();
+                format!("R {} {} {} {} {}", if *valid { 1 } else { 0 }, hexs(proof), hexs(&prev.0), hex::encode(prev.1.to_byte_array()), if t.is_empty() { "-".into() } else { t.join(",") })
+            }
+            Raw::Chunk { hash, block } => format!("C {} {}", hex::encode(hash.to_byte_array()), hexs(block)),
+            Raw::Trusted(ks) => format!("T {}", ks.iter().map(|k| k.to_string()).collect::<Vec<_>>().join(",")),
+        }
+    }
+
+    fn parse_raw(s: &str) -> Raw {
+        let t: Vec<&str> = s.split_whitespace().collect();
+        let txs = |x: &str| -> Vec<Transaction> {
+            if x == "-" { vec![] } else { x.split(',').map(|h| deserialize(&hex::decode(h).unwrap()).unwrap()).collect() }
+        };
+        match t[0] {
+            "A" => Raw::Add { valid: t[1] == "1", header: deserialize(&hex::decode(t[2]).unwrap()).unwrap(), proof: deserialize(&hex::decode(t[3]).unwrap()).unwrap(), streamed_txs: txs(t[4]) },
+            "R" => {
+                let mut f = [0u8; 32];
+                f.copy_from_slice(&hex::decode(t[4]).unwrap());
+                Raw::Remove { valid: t[1] == "1", proof: deserialize(&hex::decode(t[2]).unwrap()).unwrap(), prev: Headers(deserialize(&hex::decode(t[3]).unwrap()).unwrap(), FilterHeader::from_byte_array(f)), streamed_txs: txs(t[5]) }
+            }
+            "C" => {
+                let mut h = [0u8; 32];
+                h.copy_from_slice(&hex::decode(t[1]).unwrap());
+                Raw::Chunk { hash: BlockHash::from_byte_array(h), block: deserialize(&hex::decode(t[2]).unwrap()).unwrap() }
+            }
+            _ => Raw::Trusted(if t.len() > 1 && !t[1].is_empty() { t[1].split(',').map(|k| k.parse().unwrap()).collect() } else { vec![] }),
+        }
+    }
+
+    /// execute on the real tracker: (result class, panicked)
+    fn exec(&mut self, raw: Raw) -> (String, bool) {
+        let tr = &mut self.tracker;
+        let r = catch_unwind(AssertUnwindSafe(|| match raw {
+            Raw::Add { header, proof, .. } => tr.add_block(header, proof).map(|_| ()),
+            Raw::Remove { proof, prev, .. } => tr.remove_block(proof, prev).map(|_| ()),
+            Raw::Chunk { hash, block } => tr.block_chunk(hash, 0, &serialize(&block)),
+            Raw::Trusted(ks) => {
+                tr.trusted_oracle_pubkeys = ks.iter().map(|k| oracle_key(*k).1).collect();
+                Ok(())
+            }
+        }));
+        match r {
+            Err(e) => (format!("panic {}", panic_msg(e)), true),
+            Ok(Ok(())) => ("ok".into(), false),
+            Ok(Err(e)) => (err_str(&e).into(), false),
+        }
+    }
+}
+
+pub struct C13;
+
+/// generator-side bookkeeping of the blocks we connected (to build removals)
+struct GenState {
+    w: W13,
+    blocks: Vec<Block>,       // connected by us, tip last
+    confirmed: Vec<Vec<u64>>, // pool ids per connected block
+    trusted: Vec<u64>,
+    bits: u32,
+}
+
+impl GenState {
+    fn push(&mut self, ops: &mut Vec<String>, raw: Raw) -> String {
+        let a = self.w.abstract_line(&raw);
+        ops.push(format!("{} | {}", a, W13::raw_str(&raw)));
+        let (r, _) = self.w.exec(raw);
+        r
+    }
+
+    fn pick_txs(&self, rng: &mut Rng) -> Vec<u64> {
+        let conf: Vec<u64> = self.confirmed.iter().flatten().cloned().collect();
+        let mut v = Vec::new();
+        for id in [F, D, X0, X0 + 1, X0 + 2] {
+            let ok = !conf.contains(&id) && !(id == F && conf.contains(&D)) && !(id == D && conf.contains(&F)) && !(id == D && v.contains(&F)) && !(id == F && v.contains(&D));
+            if ok && rng.chance(1, 4) {
+                v.push(id);
+            }
+        }
+        v
+    }
+
+    /// keys that satisfy (or, with `fail`, just miss) the majority of the trusted set
+    fn attesters(&self, rng: &mut Rng, fail: bool) -> Vec<u64> {
+        let need = (self.trusted.len() + 1) / 2;
+        let k = if fail { need.saturating_sub(1) } else { need + rng.below((self.trusted.len() - need + 1) as u64) as usize };
+        let mut ks: Vec<u64> = self.trusted.iter().cloned().take(k).collect();
+        if ks.is_empty() || rng.chance(1, 3) {
+            ks.push(DUMMY_KEY); // an untrusted oracle (also avoids an empty attestation list)
+        }
+        ks
+    }
+}
+
+impl Group for C13 {
+    fn property(&self) -> &'static str { "C13" }
+    fn model(&self) -> Option<&'static str> { Some("tracker") }
+    fn rule(&self) -> &'static str {
+        "real ChainTracker on regtest/testnet rules starting at heights 0, 5, 2012..2015 (retarget boundary 2016), 4031, with \
+         0..99 remembered headers (window limit 100), zero / non-zero tip filter header, trusted oracle sets of 0-3 keys with \
+         attestations at the majority edge; valid and invalid add/remove requests (link, PoW, bits, retarget x1 /2 /4 /8 and \
+         over the chain maximum, proof for wrong height / filter header / block, ProofType::Block, wrong prev-header argument, \
+         removal with an empty window), compact and streamed; each refusal is followed by further correct requests; \
+         non-trivial = at least one accepted and one refused request"
+    }
+    fn budget(&self, tier: Tier) -> usize { if tier == Tier::Quick { 600 } else { 12000 } }
+    fn model_line(&self, op: &str) -> Option<String> {
+        Some(op.split(" | ").next().unwrap().trim_end().to_string())
+    }
+    fn gen_case(&self, rng: &mut Rng, tier: Tier) -> Vec<String> {
+        let net = if rng.chance(1, 5) { "t" } else { "r" };
+        let height = if net == "t" { *rng.pick(&[0u32, 5, 300]) } else { *rng.pick(&[0u32, 5, 2012, 2013, 2014, 2015, 2015, 4031, 300]) };
+        let nwin = match rng.below(8) { 0 => 0, 1 => 1, 2 => 97, 3 => 98, 4 => 99, _ => rng.range(2, 6) as usize };
+        let nwin = nwin.min(height as usize);
+        let zero_tip = rng.chance(1, 6);
+        let deep = rng.chance(1, 6);
+        let ntr = rng.below(4) as usize;
+        let trusted: Vec<u64> = (1..=ntr as u64).collect();
+        let (w, lines) = W13::new(net, height, REGTEST_BITS, nwin, zero_tip, deep, &trusted);
+        let mut ops = vec![
+            format!("{} | S {} {} {} {} {} {} {}", lines[0], net, height, REGTEST_BITS, nwin, zero_tip as u8, deep as u8,
+                    if trusted.is_empty() { "-".to_string() } else { trusted.iter().map(|k| k.to_string()).collect::<Vec<_>>().join(",") }),
+            format!("{} | -", lines[1]),
+            format!("{} | -", lines[2]),
+        ];
+        let mut g = GenState { w, blocks: vec![], confirmed: vec![], trusted, bits: REGTEST_BITS };
+        let steps = rng.range(3, if tier == Tier::Quick { 10 } else { 18 });
+        for _ in 0..steps {
+            let h = g.w.tracker.height();
+            let tip = g.w.tracker.tip().clone();
+            let boundary = (h + 1) % 2016 == 0;
+            let choice = rng.below(20);
+            let streamed = rng.chance(1, 4);
+            g.w.cb += 1;
+            let cbn = g.w.cb;
+            match choice {
+                // ---- additions -------------------------------------------------------------
+                0..=11 => {
+                    // 0..=5 valid, 6.. invalid flavours
+                    let ids = g.pick_txs(rng);
+                    let mut txs = vec![coinbase(cbn)];
+                    txs.extend(ids.iter().map(|i| g.w.txs[i].clone()));
+                    let mut bits = g.bits;
+                    let mut prev = tip.0.block_hash();
+                    let mut want_pow = true;
+                    let mut valid = true;
+                    let mut att_h = h + 1;
+                    let mut prev_f = tip.1;
+                    let mut fail_majority = false;
+                    let mut block_type = false;
+                    match choice {
+                        6 => { prev = g.w.tracker.headers().get(0).map(|x| x.0.block_hash()).unwrap_or(BlockHash::all_zeros()); valid = false; }
+                        7 => { want_pow = false; bits = 0x1d00ffff; valid = false; }
+                        8 => {
+                            // changed bits: allowed only at the boundary (and on testnet)
+                            bits = *rng.pick(&[0x203fffffu32, 0x201fffff, 0x200fffff, 0x217fffff, 0x207fffff]);
+                            let t4 = bits == 0x203fffff || bits == 0x201fffff || bits == 0x207fffff;
+                            valid = bits == g.bits || (boundary && t4 && g.bits == REGTEST_BITS) || (net == "t" && !boundary);
+                            if boundary && g.bits != REGTEST_BITS { valid = bits == g.bits; }
+                        }
+                        9 => { if rng.chance(1, 2) { att_h = h + 2 } else { prev_f = FilterHeader::from_byte_array([0xee; 32]) }; valid = tip.1.to_byte_array().iter().all(|x| *x == 0); }
+                        10 => { fail_majority = !g.trusted.is_empty(); valid = !fail_majority || tip.1.to_byte_array().iter().all(|x| *x == 0); }
+                        11 => { block_type = true; valid = false; }
+                        _ => {}
+                    }
+                    let block = mk_block(prev, txs.clone(), bits, 2000 + cbn, want_pow);
+                    let base = TxoProof::prove_unchecked(&block, &prev_f, att_h);
+                    let fh = base.attestations[0].1.attestation.filter_header;
+                    let keys = g.attesters(rng, fail_majority);
+                    let mut proof = TxoProof { attestations: W13::attest(&keys, block.block_hash(), att_h, fh), proof: base.proof.clone() };
+                    if block_type { proof.proof = ProofType::Block(block.clone()); }
+                    let is_stream = streamed && !block_type;
+                    if is_stream {
+                        proof.proof = ProofType::ExternalBlock();
+                        let r = g.push(&mut ops, Raw::Chunk { hash: block.block_hash(), block: block.clone() });
+                        if r.starts_with("panic") { break; }
+                    }
+                    let r = g.push(&mut ops, Raw::Add { valid, header: block.header, proof, streamed_txs: if is_stream { txs.clone() } else { vec![] } });
+                    if r.starts_with("panic") { break; }
+                    if r == "ok" {
+                        g.blocks.push(block);
+                        g.confirmed.push(ids);
+                        g.bits = bits;
+                    }
+                }
+                // ---- removals --------------------------------------------------------------
+                12..=17 => {
+                    if g.blocks.is_empty() && choice != 17 { continue; }
+                    let Some(block) = g.blocks.last().cloned().or_else(|| None) else {
+                        // removal with nothing connected by us: uses the preloaded window / empty window
+                        let prev = g.w.tracker.headers().get(0).cloned().unwrap_or(Headers(tip.0, tip.1));
+                        let blk = mk_block(prev.0.block_hash(), vec![coinbase(cbn)], g.bits, 1, true);
+                        let p = TxoProof::prove_unchecked(&blk, &prev.1, h);
+                        let r = g.push(&mut ops, Raw::Remove { valid: false, proof: p, prev, streamed_txs: vec![] });
+                        if r.starts_with("panic") { break; }
+                        continue;
+                    };
+                    let good_prev = g.w.tracker.headers().get(0).cloned().unwrap_or(Headers(tip.0, tip.1));
+                    let mut prev = good_prev.clone();
+                    let mut valid = true;
+                    let mut att_h = h;
+                    let mut fail_majority = false;
+                    match choice {
+                        14 => { prev = g.w.tracker.headers().get(1).cloned().unwrap_or(Headers(tip.0, tip.1)); valid = false; }
+                        15 => { prev = Headers(good_prev.0, FilterHeader::from_byte_array([0xdd; 32])); valid = false; }
+                        16 => { if rng.chance(1, 2) { att_h = h + 1; } else { fail_majority = !g.trusted.is_empty(); } valid = (att_h == h && !fail_majority) || good_prev.1.to_byte_array().iter().all(|x| *x == 0); }
+                        _ => {}
+                    }
+                    let base = TxoProof::prove_unchecked(&block, &good_prev.1, att_h);
+                    let fh = base.attestations[0].1.attestation.filter_header;
+                    let keys = g.attesters(rng, fail_majority);
+                    let mut proof = TxoProof { attestations: W13::attest(&keys, block.block_hash(), att_h, fh), proof: base.proof.clone() };
+                    let is_stream = streamed && choice == 13;
+                    if is_stream {
+                        proof.proof = ProofType::ExternalBlock();
+                        valid = false; // see notes: the code compares the streamed hash with the *previous* header
+                        let r = g.push(&mut ops, Raw::Chunk { hash: block.block_hash(), block: block.clone() });
+                        if r.starts_with("panic") { break; }
+                    }
+                    let r = g.push(&mut ops, Raw::Remove { valid, proof, prev, streamed_txs: if is_stream { block.txdata.clone() } else { vec![] } });
+                    if r.starts_with("panic") { break; }
+                    if r == "ok" {
+                        g.blocks.pop();
+                        g.confirmed.pop();
+                        g.bits = g.w.tracker.tip().0.bits.to_consensus();
+                    }
+                }
+                // ---- change of the trusted set ---------------------------------------------
+                _ => {
+                    let n = rng.below(4);
+                    g.trusted = (1..=n).collect();
+                    let t = g.trusted.clone();
+                    g.push(&mut ops, Raw::Trusted(t));
+                }
+            }
+        }
+        ops
+    }
+
+    fn exec_case(&self, ops: &[String]) -> CaseOut {
+        let mut co = CaseOut::default();
+        let mut w: Option<W13> = None;
+        let mut pending: Vec<String> = Vec::new(); // set-up lines that must follow `init`
+        let mut dead = false;
+        let (mut n_ok, mut n_err) = (0, 0);
+        let mut rejected_streamed = false;
+        for (i, op) in ops.iter().enumerate() {
+            if dead {
+                co.out.push("dead".into());
+                continue;
+            }
+            if op.starts_with("init ") {
+                let raw = op.split_once(" | S ").expect("setup parameters").1;
+                let t: Vec<&str> = raw.split_whitespace().collect();
+                let trusted: Vec<u64> = if t[6] == "-" { vec![] } else { t[6].split(',').map(|k| k.parse().unwrap()).collect() };
+                let (nw, lines) = W13::new(t[0], t[1].parse().unwrap(), t[2].parse().unwrap(), t[3].parse().unwrap(), t[4] == "1", t[5] == "1", &trusted);
+                assert_eq!(lines[0], op.split(" | ").next().unwrap(), "stale init line");
+                w = Some(nw);
+                pending = vec![lines[2].clone(), lines[1].clone()];
+                co.out.push("ok".into());
+                continue;
+            }
+            if let Some(expect) = pending.pop() {
+                assert_eq!(expect, op.split(" | ").next().unwrap(), "malformed case: set-up line missing");
+                co.out.push("ok".into());
+                continue;
+            }
+            let wd = w.as_mut().expect("setup first");
+            let (abs, raw_s) = op.split_once(" | ").expect("raw part");
+            let raw = W13::parse_raw(raw_s);
+            // the abstract tokens must describe this request in the current state (stale after shrinking → reject case)
+            let now = wd.abstract_line(&raw);
+            assert_eq!(now, abs.trim_end(), "stale abstract tokens");
+            let before = wd.digest();
+            let old_tip = wd.tracker.tip().clone();
+            let old_headers0 = wd.tracker.headers().get(0).cloned();
+            let trusted = wd.tracker.trusted_oracle_pubkeys.clone();
+            let kind = match &raw { Raw::Add { .. } => "add", Raw::Remove { .. } => "remove", Raw::Chunk { .. } => "chunk", Raw::Trusted(_) => "trusted" };
+            let (valid, ext, att, hdr, prev_arg) = match &raw {
+                Raw::Add { valid, header, proof, .. } => (*valid, proof.proof.is_external(), proof.attestations.iter().map(|a| a.0).collect::<Vec<_>>(), Some(*header), None),
+                Raw::Remove { valid, proof, prev, .. } => (*valid, proof.proof.is_external(), proof.attestations.iter().map(|a| a.0).collect::<Vec<_>>(), None, Some(prev.clone())),
+                _ => (false, false, vec![], None, None),
+            };
+            let (res, panicked) = wd.exec(raw);
+            if panicked {
+                dead = true;
+                co.tags.insert(format!("{}:panic", kind));
+                if kind == "chunk" && rejected_streamed && res.contains("on_block_start") {
+                    co.violations.push(Violation {
+                        kind: "streamed-reject-leaves-decode-state".into(),
+                        desc: format!("a streamed request was refused earlier in this history; the next streamed block panics in the monitor: {}", res),
+                        at: i,
+                    });
+                }
+                // `self.height - 1` at height 0 (deep reorgs allowed, empty window): overflow check of the debug
+                // build; a release build refuses the request with OrphanBlock — modelled, not a violation
+                let h0_underflow = kind == "remove" && before.starts_with("h=0 ") && res.contains("subtract with overflow");
+                if h0_underflow { co.tags.insert("remove:panic:height0-underflow".into()); }
+                if (kind == "add" || kind == "remove") && !h0_underflow {
+                    co.violations.push(Violation {
+                        kind: "tracker-abort".into(),
+                        desc: format!("{} panicked inside the implementation instead of returning a refusal: {}", kind, res),
+                        at: i,
+                    });
+                }
+                co.out.push("panic".into());
+                continue;
+            }
+            let after = wd.digest();
+            co.tags.insert(format!("{}:{}", kind, res));
+            if res == "ok" && kind != "trusted" && kind != "chunk" {
+                n_ok += 1;
+                // (b) independent evaluation of the acceptance conditions
+                let need = (trusted.len() + 1) / 2;
+                let have = trusted.iter().filter(|k| att.contains(k)).count();
+                let (prev_f, linked, pow) = if let Some(h) = hdr {
+                    (old_tip.1, h.prev_blockhash == old_tip.0.block_hash(), h.validate_pow(h.target()).is_ok())
+                } else {
+                    let p = prev_arg.clone().unwrap();
+                    (p.1, old_tip.0.prev_blockhash == p.0.block_hash() && old_headers0.as_ref().map(|h0| h0.0 == p.0 && h0.1 == p.1).unwrap_or(true), true)
+                };
+                let bypass = prev_f.to_byte_array().iter().all(|x| *x == 0);
+                if !linked || !pow || (!bypass && have < need) {
+                    co.violations.push(Violation {
+                        kind: "accepted-invalid-block".into(),
+                        desc: format!("{} accepted with linked={} pow={} trusted attestations {}/{} (need {}), bypass={}", kind, linked, pow, have, trusted.len(), need, bypass),
+                        at: i,
+                    });
+                }
+                if have == need && need > 0 { co.tags.insert("majority-edge:accepted".into()); }
+            } else if res.starts_with("err") {
+                n_err += 1;
+                if ext { rejected_streamed = true; }
+                // (a) a refusal changes nothing
+                if before != after {
+                    co.violations.push(Violation {
+                        kind: "rejected-request-changed-state".into(),
+                        desc: format!("{} refused ({}) but the tracker changed: before [{}] after [{}]", kind, res, before, after),
+                        at: i,
+                    });
+                }
+                // (c) a correct request must succeed
+                if valid {
+                    co.violations.push(Violation {
+                        kind: "correct-request-rejected".into(),
+                        desc: format!("a correct {} was refused with {} (refusals so far: {})", kind, res, n_err - 1),
+                        at: i,
+                    });
+                }
+                if kind == "remove" && ext && res == "err:decode-error" { co.tags.insert("streamed-remove:decode-error".into()); }
+            }
+            if res == "ok" && (kind == "add" || kind == "remove") && !valid {
+                co.tags.insert("generator-expected-refusal-but-accepted".into());
+            }
+            co.out.push(if res == "ok" || res.starts_with("err") { format!("{} {}", res, after) } else { res });
+        }
+        co.nontrivial = n_ok > 0 && n_err > 0;
+        co
+    }
+}
 
 pub fn groups() -> Vec<Box<dyn Group>> {
-    vec![]
+    vec![Box::new(C13)]
 }
